@@ -130,8 +130,8 @@ def gen_mesh(rng, cid, misaligned=False, malformed=False, only_type=None):
         vids = list(ids)
         while vids == ids and n > 1:
             rng.shuffle(vids)
-        variables.append({'name': 'scal', 'ids': vids, 'shape': [n, 1],
-                          'flat': [pair(Fr(i)) for i in vids]})
+        variables.append({'name': 'scal', 'ids': vids, 'shape': [n, 1], 'dtype': 'float64',
+                          'flat': [pair(Fr(ids.index(i) + 1)) for i in vids]})
     overwrites = []
     for v in variables:
         if rng.random() < 0.3:
@@ -348,8 +348,8 @@ def shrink_misaligned(c):
     ids = c['node_ids'][:2]
     return {'node_ids': ids, 'points': c['points'][:2],
             'blocks': [{'type': 'line', 'ids': [1], 'conn': [ids]}],
-            'variables': [{'name': 'scal', 'ids': ids[::-1], 'shape': [2, 1],
-                           'flat': [pair(Fr(i)) for i in ids[::-1]]}],
+            'variables': [{'name': 'scal', 'ids': ids[::-1], 'shape': [2, 1], 'dtype': 'float64',
+                           'flat': [pair(Fr(k)) for k in (2, 1)]}],
             'id_mode': c['id_mode'], 'stream': 'misaligned'}
 
 
